@@ -3,14 +3,70 @@ package main
 import (
 	"encoding/json"
 	"fmt"
+	"math/big"
 	"os"
+	"strings"
 
 	"github.com/google/jsonschema-go/jsonschema"
 )
 
 // Witnesses of the known findings listed in /verif/known_findings.json.  Each returns
 // whether the defect still shows on the current tree, and what was observed.
+type kfInner struct{ A int }
+type kfUnexp struct {
+	*kfInner
+	K int
+}
+
+func decodeStrict(text string, p any) error {
+	dec := json.NewDecoder(strings.NewReader(text))
+	dec.DisallowUnknownFields()
+	return dec.Decode(p)
+}
+
+func validatesFor[T any](text string) (bool, error) {
+	s, err := jsonschema.For[T](nil)
+	if err != nil {
+		return false, err
+	}
+	rs, err := s.Resolve(nil)
+	if err != nil {
+		return false, err
+	}
+	var inst any
+	if err := json.Unmarshal([]byte(text), &inst); err != nil {
+		return false, err
+	}
+	return rs.Validate(inst) == nil, nil
+}
+
 var kfWitnesses = map[string]func() (bool, string){
+	"O-7b": func() (bool, string) {
+		type T struct{ V *big.Int }
+		bs, _ := json.Marshal(T{V: big.NewInt(5)})
+		ok, err := validatesFor[T](string(bs))
+		if err != nil {
+			return false, err.Error()
+		}
+		return !ok, fmt.Sprintf("encoding %s validates: %v", bs, ok)
+	},
+	"O-9a": func() (bool, string) {
+		type T struct{ F float32 }
+		ok, err := validatesFor[T](`{"F":1e300}`)
+		if err != nil {
+			return false, err.Error()
+		}
+		derr := decodeStrict(`{"F":1e300}`, new(T))
+		return ok && derr != nil, fmt.Sprintf("schema accepts: %v; decode: %v", ok, derr)
+	},
+	"O-9b": func() (bool, string) {
+		ok, err := validatesFor[kfUnexp](`{"A":1,"K":2}`)
+		if err != nil {
+			return false, err.Error()
+		}
+		derr := decodeStrict(`{"A":1,"K":2}`, new(kfUnexp))
+		return ok && derr != nil, fmt.Sprintf("schema accepts: %v; decode: %v", ok, derr)
+	},
 	"O-16": func() (bool, string) {
 		var s jsonschema.Schema
 		doc := `{"$defs":{"a":{"type":"integer"}},"definitions":{"b":true},"$ref":"#/$defs/a"}`
